@@ -432,6 +432,27 @@ var concurrentPrograms = []string{
 	"(defun kw (x &optional (y)) x) (ignore-errors (kw 1))",
 	"(insert-sorted 'list '(1 3) < 2) (insert-index 'list '(1 3) 1 2) (zip 'list '(1 2) '(3 4)) (reverse 'list '(1 2 3))",
 	"(select 'list (lambda (x) (> x 1)) '(1 2 3)) (reject 'list (lambda (x) (> x 1)) '(1 2 3)) (concat 'list '(1) '(2))",
+	// per-runtime-distinct data (whoami is set differently in every runtime) flowing through every
+	// operator that builds a call form or a list from program text: a write into storage shared
+	// through the parse shows up as one runtime reading another's value
+	"(thread-last (list whoami) (append 'list '(0)) (concat 'list '(9) '(8)) (map 'list (lambda (x) x)))",
+	"(thread-last whoami (+ 1 2) (+ 3 4 5) (* 1 1 1 1 1) (list 'a 'b 'c 'd 'e 'f))",
+	"(thread-first (list whoami 5 6) (nth 0) (+ 1 2 3) (list 'x 'y 'z 'w 'v))",
+	"(thread-first (list whoami) (cdr) (list 1 2 3 4 5 6))",
+	"(defmacro m (x) (quasiquote (list (unquote x) whoami (unquote x)))) (list (m (+ whoami 1)) (m (list whoami)))",
+	"(defmacro m2 (&rest xs) (quasiquote (list (unquote-splicing xs) whoami))) (m2 whoami (+ whoami 1) (list whoami))",
+	"(list (apply list whoami '(1 2 3)) (funcall list whoami 4) ((lambda (&rest xs) xs) whoami 5 6))",
+	"(get-default (sorted-map 'a whoami) 'b (list whoami whoami))",
+	"(cond ((< whoami 0) 'neg) ((= whoami 99) 'big) (else (list whoami (+ whoami 1) (+ whoami 2))))",
+	"(set 'acc '()) (dotimes (i 3) (set 'acc (cons (+ i whoami) acc))) acc",
+	"(format-string \"{} {} {}\" whoami (list whoami) (sorted-map 'k whoami))",
+	"(handler-bind ([boom (lambda (c &rest d) (list whoami d))]) (error 'boom whoami (list whoami)))",
+	"(labels ([tri (n) (if (= n 0) whoami (thread-last n (+ 0 0) (+ (tri (- n 1)) 0 0)))]) (tri 4))",
+	"(let* ([a (list whoami 1)] [b (append 'list a whoami)] [c (append 'list a (+ whoami 1))]) (list a b c))",
+	"(defun kw (&key a b c) (list a b c)) (kw :c whoami :a (list whoami))",
+	"(let ([v (vector whoami)]) (append! v (+ whoami 1)) (append! v (+ whoami 2)) (list v (slice 'vector v 1 3)))",
+	"(or (and (> whoami 99) 'big) (list whoami) 'unreached)",
+	"(flet ([f (x &optional y) (list x y whoami)]) (list (f whoami) (f 1 whoami)))",
 }
 
 // ---------------------------------------------------------------------------
